@@ -286,9 +286,12 @@ func c14OverlapUnit(ov *c14Overlap, bound int, maxExecs int) *Unit {
 			vrt.Settle("harness/c14o.settle")
 		}
 		cfg := vrt.ExploreCfg{Bound: bound, Menu: menuTSME, Deadline: deadline, MaxExecs: maxExecs,
-			Exec: vrt.Config{MapMenu: true},
+			Exec: vrt.Config{MapMenu: true, Race: raceMode},
 			Check: func(x *vrt.Exec) []vrt.Violation {
 				var out []vrt.Violation
+				if raceMode {
+					out = append(out, raceViolations(x)...)
+				}
 				oc := x.Outcome()
 				if oc.Deadlock {
 					out = append(out, vrt.Violation{Key: ov.prog.Name + "/overlap-blocks-forever/" + blockedKey(oc.Blocked), Detail: "overlapping runs block forever: " + strings.Join(oc.Blocked, "; ")})
